@@ -444,6 +444,9 @@ def densify(coords: CoordList, resolution: float) -> CoordList:
     """
     Adds points so they are at most `resolution` units apart.
     """
+    if resolution <= 0:
+        raise ValueError("resolution must be positive")
+
     d2 = resolution**2
 
     def short_enough(p1, p2):
@@ -722,7 +725,7 @@ class Geometry(SupportsCoords[float]):
         if resolution == "auto":
             resolution = _auto_resolution(self)
 
-        if resolution is not None and math.isfinite(resolution):
+        if resolution is not None and math.isfinite(resolution) and resolution > 0:
             geom = self.segmented(resolution)
         else:
             geom = self
@@ -1413,7 +1416,7 @@ def lonlat_bounds(
     if resolution == "auto":
         resolution = _auto_resolution(geom)
 
-    if resolution is not None and math.isfinite(resolution):
+    if resolution is not None and math.isfinite(resolution) and resolution > 0:
         geom = geom.segmented(resolution)
 
     bbox = geom.to_crs("EPSG:4326", check_and_fix=True).boundingbox
